@@ -87,6 +87,22 @@ def install(handler, g):
         from unit_scaling.formats import FPFormat
 
         ob = rj["obligation"]
+        if rj["job"].startswith("c13:reuse["):
+            c = rj["cfg"]
+            f = FPFormat(c["E0"], c["M0"], "nearest")
+            _ = (f.max_absolute_value, f.min_absolute_normal, f.min_absolute_subnormal)
+            x = torch.tensor([0.3, 1.3, 312.0, -7.7e4, 3e-6, 1e-9, 5e4], dtype=torch.float32)
+            f.quantise(x.clone())
+            f.exponent_bits, f.mantissa_bits = c["E"], c["M"]
+            g_ = FPFormat(c["E"], c["M"], "nearest")
+            msgs = []
+            for name in ("max_absolute_value", "min_absolute_normal", "min_absolute_subnormal"):
+                if float(getattr(f, name)) != float(getattr(g_, name)):
+                    msgs.append(f"{name} = {getattr(f, name)} after the fields were reassigned, a fresh E{c['E']}M{c['M']} format has {getattr(g_, name)}")
+            a, b = f.quantise(x.clone()), g_.quantise(x.clone())
+            if not torch.equal(a, b):
+                msgs.append(f"quantise gives {a.tolist()}, a fresh format {b.tolist()}")
+            return bool(msgs), "; ".join(msgs)[:600] or "a re-used format object behaves as a fresh one"
         E, M, dtype, _ = parse(ob)
         w = rj.get("witness") or {}
         clause = ob.split("]:", 1)[1]
@@ -112,6 +128,18 @@ def install(handler, g):
             if tuple(y.shape) != tuple(ref.shape):
                 return True, f"result shape {tuple(y.shape)} != float32-path shape {tuple(ref.shape)} (elements reinterpreted across element sizes)"
             return not torch.equal(y, ref), f"differs from the float32 path on {int((y != ref).sum())} elements"
+        if clause.startswith("argument_not_modified"):
+            msgs = []
+            for xs in (torch.tensor([1.3, -2.7, 100.0, 3e-5, 6.17e17]), torch.tensor([[1.3, -2.7], [0.1, 5e4]]).t(), torch.tensor(1.3)):
+                before = xs.clone()
+                try:
+                    fmt.quantise(xs)
+                except Exception as e:
+                    msgs.append(f"raised {type(e).__name__}: {e}")
+                    continue
+                if not torch.equal(before, xs):
+                    msgs.append(f"float32 argument of shape {tuple(xs.shape)} modified in place: was {before.flatten().tolist()[:3]}, now {xs.flatten().tolist()[:3]}")
+            return bool(msgs), "; ".join(msgs)[:500] or "argument unchanged"
         xb = ival(w, "x_bits")
         if xb is None:
             return False, "no x_bits in the witness"
@@ -250,5 +278,5 @@ def install(handler, g):
         return False, "no replay rule for " + clause
 
     handler(lambda rj: rj["job"].startswith("c14:quantise"))(replay_c14)
-    handler(lambda rj: rj["job"].startswith("c13:quantise"))(replay_c13)
+    handler(lambda rj: rj["job"].startswith("c13:quantise") or rj["job"].startswith("c13:reuse["))(replay_c13)
     handler(lambda rj: rj["job"].startswith("c13:range"))(replay_range)
